@@ -231,6 +231,9 @@ func init() {
 			"Not decided: index-out-of-range and nil dereference on malformed models in general, line/column consistency beyond the unit rule.",
 		Rules: []string{"EXIT", "STAGEGATE", "ASSERTTY", "OPTIONMAP", "CYCLE", "ESCAPE", "CURSOR", "UNITS(bytes)", "GUARD(optimize-la)", "DTX(rune-fold)"},
 		Run: func(c *Ctx) {
+			ruleLOOKUPIDX(c, "syntax", "compiler", "grammar", "gen", "lalr", "lex")
+			ruleMEMOCYCLE(c, "compiler", "syntax", "lalr", "grammar")
+			ruleNILANCHOR(c, "compiler")
 			ruleEXIT(c)
 			ruleSTAGEGATE(c)
 			ruleASSERTTY(c)
@@ -398,6 +401,8 @@ func init() {
 			"TMPL(step-scope): the template emits each chain step's selector name from the step itself. Not decided: other grammars (type inference in syntax/types.go is algorithmic), 'every child is reachable through an accessor'.",
 		Rules: []string{"EXHAUST", "IMPL", "TMPL(step-scope)"},
 		Run: func(c *Ctx) {
+			ruleSAVERESTORE(c, "syntax", "compiler", "gen", "grammar")
+			ruleMINIMIZE(c)
 			ruleTYPEDAST(c)
 			ruleTMPLSTEPSCOPE(c)
 		},
